@@ -37,7 +37,8 @@ def main():
     thorough = ctx.tier == "thorough"
     ctx.rule = ("TLC enumerates every (constraint kind, lower, upper, n) with bounds in -1..5 and n in 0..6; each behaviour "
                 "is the client-visible observation sequence (i-th solution | exception class | stop) per next(); "
-                "replayed on an(entity)/an(set_of)/the over real domains in 4 query forms. Non-trivial = the constraint "
+                "replayed on an(entity)/an(set_of)/the over real domains in 5 query forms; every sequence of per-binding solution "
+                "counts (0..2, up to 4 bindings) for a the(...) nested in and correlated with an enclosing query. Non-trivial = the constraint "
                 "was constructed and at least one next() happened; distinct by (kind, lo, hi, n, form).")
     # 1. model checking: I => R, switches off; non-vacuity: each switch on must be refuted
     ctx.run_tlc("Quantifier", "Quantifier_mc.cfg", expect="ok")
@@ -69,9 +70,26 @@ def main():
         c = dict(b)
         c["form"] = "pair"
         cases.append(c)
+    # the(...) nested in an enclosing query and correlated with it (NestedThe.tla)
+    ctx.run_tlc("NestedThe", "NestedThe_mc.cfg", expect="ok")
+    ctx.run_tlc("NestedThe", "NestedThe_mc_strict.cfg", expect="ok")
+    ctx.run_tlc("NestedThe", "NestedThe_sw_MemoFirst.cfg", expect="violation")
+    nested = [j for j in ctx.run_tlc("NestedThe", "NestedThe_gen.cfg", expect="ok").json_lines() if isinstance(j, dict) and "counts" in j]
+    if len(nested) < 100:
+        raise MachineryError(f"NestedThe_gen produced only {len(nested)} behaviours")
+    for b in nested:
+        for variant in (0, 1):
+            cases.append({"form": "nested", "counts": b["counts"], "variant": variant, "allowed": b["allowed"]})
     results = replay("c09", cases)
     ctx.replayed = len(cases)
     for c, r in zip(cases, results):
+        if c["form"] == "nested":
+            key = ["nested", c["counts"], c["variant"]]
+            ctx.case(key, len(c["counts"]) >= 2, sample={"case": key, "allowed": c["allowed"], "observed": r["obs"]})
+            if r["obs"] not in [[list(x) for x in a] for a in c["allowed"]]:
+                ctx.violation({"case": key, "allowed": c["allowed"], "observed": r["obs"]},
+                              note="nested correlated the(...): observations differ from every allowed per-binding sequence")
+            continue
         if c["form"] == "pair":
             key = ["pair", c["kind"], c["lo"], c["hi"], c["n"], [(e["i"], e["o"]) for e in c["h"]]]
             ctx.case(key, True, sample={"case": key[:5], "schedule": c["h"], "observed": r["obs"]})
@@ -90,5 +108,7 @@ def main():
     if thorough or os.environ.get("VERIF_APALACHE") == "1":
         ctx.cov["apalache_obligations"] = apalache(ctx)
     ctx.assumptions = ["result order is not prescribed: the i-th value must be a solution not yielded before",
-                       "the(...) is observed through evaluate() (value or exception class), not stepwise"]
+                       "the(...) is observed through evaluate() (value or exception class), not stepwise",
+                       "nested the(...): the enclosing variable is bound before the nested description is reached (conditions written in that "
+                       "order); a binding with several solutions may stream its first solution downstream before raising"]
     return ctx.finish()
